@@ -845,6 +845,64 @@ func (x *Exec) execGo(fr *Frame, st *State, ins *ssa.Go) {
 		x.get(fr, a)
 	}
 	x.trusted["go statement: spawned goroutine not followed (sequential semantics per goroutine)"] = true
+	// ownership of captured variables: a variable captured by the spawned closure must not be assigned by the
+	// spawning function afterwards (the goroutine would see the later value - the shared loop variable of Go
+	// before 1.22 - or race with the assignment). A re-executed declaration makes a new variable and is fine.
+	if mc, ok := ins.Call.Value.(*ssa.MakeClosure); ok && x.discovering == 0 {
+		for _, b := range mc.Bindings {
+			a, ok := b.(*ssa.Alloc)
+			if !ok {
+				continue
+			}
+			if st2 := storeAfter(ins, a); st2 != nil {
+				x.check(st, "spawn-capture", []string{"C05"}, ins.Pos(), cellHint(a)+": captured by a spawned goroutine and assigned again afterwards", False)
+			}
+		}
+	}
+}
+
+// storeAfter reports a store to the variable a that can execute after instruction from without a's declaration
+// being executed again in between.
+func storeAfter(from ssa.Instruction, a *ssa.Alloc) *ssa.Store {
+	blk := from.Block()
+	scan := func(instrs []ssa.Instruction) (*ssa.Store, bool) {
+		for _, in := range instrs {
+			if in == ssa.Instruction(a) {
+				return nil, true // a new variable from here on
+			}
+			if s, ok := in.(*ssa.Store); ok && s.Addr == ssa.Value(a) {
+				return s, true
+			}
+		}
+		return nil, false
+	}
+	idx := 0
+	for i, in := range blk.Instrs {
+		if in == from {
+			idx = i + 1
+		}
+	}
+	if s, stop := scan(blk.Instrs[idx:]); stop {
+		return s
+	}
+	seen := map[*ssa.BasicBlock]bool{}
+	work := append([]*ssa.BasicBlock{}, blk.Succs...)
+	for len(work) > 0 {
+		b := work[0]
+		work = work[1:]
+		if seen[b] {
+			continue
+		}
+		seen[b] = true
+		if s, stop := scan(b.Instrs); stop {
+			if s != nil {
+				return s
+			}
+			continue
+		}
+		work = append(work, b.Succs...)
+	}
+	return nil
 }
 
 func fr0params(x *Exec) []Value {
